@@ -89,7 +89,9 @@ def run(ctx, rep):
     rep.extra['monotone_counters'] = {k: sorted(v) for k, v in counters.items()}
     import model as _model
     def apply_invariants(I, v, inv):
-        _model.apply_invariants(I, v, inv); counter_atoms(v, counters, MEM_ATOMS)
+        _model.apply_invariants(I, v, inv)
+        if not hasattr(I, 'counter_atoms'): I.counter_atoms = set()
+        counter_atoms(v, counters, I.counter_atoms)
     rep.extra['type_invariants'] = {k: {a: list(b) for a, b in v.items() if b[1] < 255 or b[0] > 0} for k, v in inv.items()}
     sites = {}     # key -> record
     visited_casts = set(); visited_arith = set()
@@ -97,14 +99,24 @@ def run(ctx, rep):
         cls = classify_site(kind, term, bits, src_ty, flows)
         key = '%s:%s:%s' % (kind, fn, what)
         if sp is None and fn in f.bodies: sp = f.bodies[fn].get('sp')
-        if key not in sites: sites[key] = {'kind': kind, 'fn': fn, 'what': what, 'class': cls, 'sp': sp, 'term': show(term), 'extra': extra}
+        # a site is met once per evaluation context (inlined with constants here, with caller values there): the worst
+        # classification over all of them is the site's
+        rank = {'unguarded': 4, 'value': 3, 'internal': 2, 'index': 1, 'capacity': 0}
+        if key not in sites or rank.get(cls, 0) > rank.get(sites[key]['class'], 0):
+            sites[key] = {'kind': kind, 'fn': fn, 'what': what, 'class': cls, 'sp': sp, 'term': show(term), 'extra': extra}
     def harvest(I, outputs=()):
         visited_casts.update(I.visited_casts); visited_arith.update(I.visited_arith)
-        MEM_ATOMS.update(getattr(I, 'alloc_atoms', ()))
+        # atoms are named after parameters and fields, so what counts as a memory-bounded quantity is per evaluated function
+        MEM_ATOMS.clear(); MEM_ATOMS.update(getattr(I, 'alloc_atoms', ())); MEM_ATOMS.update(getattr(I, 'counter_atoms', ()))
         outset = set(); idxset = set()
         for v in outputs: collect_terms(v, outset)
         for u in list(outset):
             if u[0] == 'sel': idxset |= subterms(u[2])
+            # bounds of a sub-range read (`&v[lo..hi]`) are positions too: a wrapped bound makes lo > hi or hi > len,
+            # and slicing refuses both
+            if u[0] == 'slice' and len(u) == 4: idxset |= subterms(u[2]) | subterms(u[3])
+            if u[0] == 'call' and u[1] == 'slice' and len(u) == 5: idxset |= subterms(u[3]) | subterms(u[4])
+        for pos_ in _store_positions(outputs): idxset |= subterms(pos_)
         for c in I.casts:
             if c.get('capacity'):
                 rep.info.append({'capacity-bounded cast': c['fn'], 'to': c['to'], 'term': show(c['term'])[:80]}) if len(rep.info) < 150 else None
@@ -211,7 +223,7 @@ def run(ctx, rep):
         n = ('a', 'len'); sym.ATOM_RANGE['len'] = (0, (1 << 64) - 1)
         for incl in (1, 0):
             I = new_interp(f, abstract=())
-            r = run_fn(I, name, [n, C(incl)]); rep.analysed.add(name)
+            r = byte_view(I, run_fn(I, name, [n, C(incl)])); rep.analysed.add(name)
             if I.tops or not isinstance(r, SeqV): rep.undecided('sites', name, I.tops); continue
             visited_casts.update(I.visited_casts); visited_arith.update(I.visited_arith)
             flat, unres = in_cell(norm_segs(r.segs), n, 1 << 28, (1 << 32) - 1)
@@ -269,6 +281,26 @@ def collect_terms(v, out, seen=None):
         else:
             for x in v: collect_terms(x, out, seen)
 
+def _store_positions(outputs):
+    """index / range-bound terms of the interval writes recorded on the sequences reachable from the outputs"""
+    out = []; seen = set()
+    def walk(v):
+        if is_term(v) or id(v) in seen: return
+        seen.add(id(v))
+        if isinstance(v, RefV): walk(v.place.get())
+        elif isinstance(v, (StructV, EnumV)):
+            for x in v.fields.values(): walk(x)
+        elif isinstance(v, SeqV):
+            for (i, _) in v.stores:
+                if isinstance(i, tuple) and i and i[0] in ('range', 'within'): out.extend(x for x in i[1:] if is_term(x))
+                elif is_term(i): out.append(i)
+            for s in v.segs:
+                if s[0] in ('elem', 'fill'): walk(s[-1])
+        elif isinstance(v, list):
+            for x in v: walk(x)
+    for v in outputs: walk(v)
+    return out
+
 def _non_index_terms(outputs):
     """terms that reach an output other than through the index position of an element access"""
     out = set()
@@ -290,6 +322,10 @@ def _non_index_terms(outputs):
             k = t[0]
             if k == 'sel':
                 walk(t[1]); return            # do not descend into the index
+            if k == 'slice' and len(t) == 4:
+                walk(t[1]) if is_term(t[1]) else None; return
+            if k == 'call' and t[1] == 'slice' and len(t) == 5:
+                walk(t[2]); return
             if k == 'eq' and (t[1] in below or t[2] in below): return     # aliasing test between two indices
             if k == 'lin':
                 for u, _ in t[1]: walk(u)
